@@ -50,7 +50,7 @@ def cases(tier, seed):
     out = []
     sizes = [1, 2, 3, 5] if quick else [1, 2, 3, 5, 8]
     for n in sizes:
-        layouts = ["flat"] if n == 1 else (["tree", "flat"] if (not quick or n == 3) else ["tree"])
+        layouts = ["flat"] if n == 1 else (["tree", "flat"] if not quick else ["tree"])
         for layout in layouts:
             for cplx in (False, True):
                 for x0 in (False, True):
@@ -176,7 +176,7 @@ def run_hpd(c):
         rhss.insert(1, "ie%d" % (n - 1))
     found = {}
     st = dict(runs=0, conv_by_criterion=0, conv_exactly_at_maxiter=0, stopped_by_maxiter=0, ambiguous=0,
-              maxiter_zero=0, late_stop=0, compared=0)
+              maxiter_zero=0, nit_differs=0, compared=0)
 
     def V(key, what):
         found.setdefault(key, what)
@@ -267,6 +267,8 @@ def run_hpd(c):
                         r["crit"] = bool(crit_res or crit_abs)
                         exact = rn <= sg
                         r["valid_success"] = bool(exact or (r["crit"] and r["nit"] >= mi))
+                        if r["info"] == 0 and not (r["crit"] and r["nit"] >= mi):
+                            r["amb"] = True     # stopped by the gamma == 0 test only: decided by the last bit of a rounding error
                         if r["info"] == 0 and not exact:
                             if r["nit"] < mi:
                                 V("hpd|%s|success-before-miniter" % solver,
@@ -299,21 +301,20 @@ def run_hpd(c):
                     where = "%s %s" % (tag, _cfgstr(cfg, maxiter))
                     ce, cs = np.sign(e["info"]), np.sign(s["info"])
                     if e["nit"] != s["nit"]:
-                        V("hpd|disagree|iterations", "%s: eager nit=%d info=%d, static nit=%d info=%d"
-                          % (where, e["nit"], e["info"], s["nit"], s["info"]))
-                    elif ce != cs:
+                        st["nit_differs"] += 1          # a counter, not part of the result (DESIGN 7.3)
+                    if ce != cs:
                         who = "static" if cs != 0 else "eager"
                         other = e if who == "static" else s
-                        if other["info"] == 0 and other["valid_success"] and other["nit"] == ma:
+                        if e["nit"] == s["nit"] == ma and other["info"] == 0 and other["valid_success"]:
                             V("hpd|disagree|verdict|converged-exactly-at-maxiter|%s-reports-failure" % who,
                               "%s: both stop at nit=%d=maxiter with |Ax-j|=%.2e, criterion met; eager info=%d, static info=%d"
                               % (where, e["nit"], e["rn"], e["info"], s["info"]))
                         else:
-                            V("hpd|disagree|verdict", "%s: eager info=%d, static info=%d at nit=%d" % (where, e["info"], s["info"], e["nit"]))
-                    if e["nit"] == s["nit"]:
-                        d = np.linalg.norm(e["x"] - s["x"])
-                        if d > 1e-10 * max(1., np.linalg.norm(e["x"])):
-                            V("hpd|disagree|solution", "%s: |x_eager - x_static| = %.3e at nit=%d" % (where, d, e["nit"]))
+                            V("hpd|disagree|verdict", "%s: eager info=%d nit=%d, static info=%d nit=%d" % (where, e["info"], e["nit"], s["info"], s["nit"]))
+                    d = np.linalg.norm(e["x"] - s["x"])
+                    if d > 1e-10 * max(1., np.linalg.norm(e["x"])):
+                        V("hpd|disagree|solution", "%s: |x_eager - x_static| = %.3e (nit %d / %d, info %d / %d)"
+                          % (where, d, e["nit"], s["nit"], e["info"], s["info"]))
     event = {"none": st["conv_by_criterion"], "at": st["conv_exactly_at_maxiter"], "before": st["stopped_by_maxiter"]}[c["maxmode"]]
     if found:
         keys = sorted(found)
